@@ -37,39 +37,14 @@ def is_ascii(us):
 
 def cfg_ops(o, k):
     try:
-        return json.loads(o["obs"][k])["ops"]
+        raw = o["obs"][k]
+        if raw == "=0":
+            raw = o["obs"][0]
+        elif raw == "=1":
+            raw = o["obs"][1]
+        return json.loads(raw)["ops"]
     except Exception:
         return None
-
-
-def first_diff_op(case, o, a, b):
-    """kind of the first op on which configurations a and b differ (None if undecidable)"""
-    x, y = cfg_ops(o, a), cfg_ops(o, b)
-    if x is None or y is None:
-        return None
-    for i, (p, q) in enumerate(zip(x, y)):
-        if p != q:
-            return case["ops"][i]["o"]
-    return None
-
-
-def fast_only(code, need_a=None, need_b=None):
-    """only fast-path bits (2: A-fast, 4: B-fast) and the 'not all equal' bit are set, tables agree,
-    every match is well-formed, and each deviating fast configuration is reproduced by I"""
-    if code < 0 or code & (1 | 2 | 8 | 32 | 128):
-        return False
-    a, b = bool(code & 4), bool(code & 16)
-    if not (a or b) or not code & 64:
-        return False
-    if a and not code & 256:
-        return False
-    if b and not code & 512:
-        return False
-    if need_a is not None and a != need_a:
-        return False
-    if need_b is not None and b != need_b:
-        return False
-    return True
 
 
 def has_empty_match(o):
@@ -79,6 +54,65 @@ def has_empty_match(o):
             if i == e:
                 return True
     return False
+
+
+def explain(case, rec, exp):
+    """per-op explanation of a run case whose engine tables agree and whose matches are all well-formed:
+    the set of fast-path findings that account for EVERY op on which the four configurations differ;
+    None if some difference is not of a recorded shape"""
+    if case.get("kind") != "run":
+        return None
+    o, code = obs_of(rec), code_of(exp)
+    if not o or code < 0 or code & (1 | 2 | 128) or not code & 64:
+        return None
+    cf = [cfg_ops(o, k) for k in range(4)]
+    f = case.get("flags", "")
+    if any(c is None for c in cf):
+        # observation text was truncated: fall back on the classification code alone - every deviating fast
+        # configuration is reproduced by the transcribed fast path, generic configurations agree with S
+        ok = not code & (8 | 32) and (not code & 4 or code & 256) and (not code & 16 or code & 512) and code & (4 | 16)
+        if ok and "g" in f and "y" in f and has_empty_match(o):
+            return {"F202"}
+        return None
+    if len({len(c) for c in cf}) != 1 or len(cf[0]) != len(case.get("ops", [])):
+        return None
+    empty = has_empty_match(o)
+    re2 = o.get("engA", "").startswith("re2")
+    nonascii = not is_ascii(units(case, "subj"))
+    out = set()
+    for i, op in enumerate(case["ops"]):
+        r = [c[i] for c in cf]
+        if r[0] == r[1] == r[2] == r[3]:
+            continue
+        k = op["o"]
+        if k in ("match", "replace", "replaceFn") and "g" in f and "y" not in f and empty and re2 \
+                and r[1] == r[2] == r[3]:
+            out.add("F201")
+        elif k in ("match", "replace", "replaceFn") and "g" in f and "y" in f and empty and r[1] == r[3]:
+            out.add("F202")
+        elif k == "split" and empty:
+            out.add("F203")
+        elif k in ("replace", "replaceFn") and "g" not in f and nonascii and ("y" in f or "u" in f) and r[1] == r[3]:
+            out.add("F204")
+        else:
+            return None
+    return out or None
+
+
+def p_re2_findall_drops_adjacent_empty(case, rec, exp):
+    return "F201" in (explain(case, rec, exp) or ())
+
+
+def p_sticky_global_fast(case, rec, exp):
+    return "F202" in (explain(case, rec, exp) or ())
+
+
+def p_split_fast_rx2_list(case, rec, exp):
+    return "F203" in (explain(case, rec, exp) or ())
+
+
+def p_replace_nonglobal_fast(case, rec, exp):
+    return "F204" in (explain(case, rec, exp) or ())
 
 
 def p_flags_dup_u(case, rec, exp):
@@ -127,54 +161,16 @@ def run_case(case, rec, exp):
     return obs_of(rec), code_of(exp)
 
 
-def p_re2_findall_drops_adjacent_empty(case, rec, exp):
-    o, code = run_case(case, rec, exp)
-    if not o or not fast_only(code, need_a=True, need_b=False):
-        return False
-    f = case.get("flags", "")
-    return ("g" in f and "y" not in f and o.get("engA", "").startswith("re2") and has_empty_match(o)
-            and first_diff_op(case, o, 0, 1) in ("match", "replace", "replaceFn"))
-
-
-def p_sticky_global_fast(case, rec, exp):
-    o, code = run_case(case, rec, exp)
-    if not o or not fast_only(code):
-        return False
-    f = case.get("flags", "")
-    d = first_diff_op(case, o, 0, 1) or first_diff_op(case, o, 2, 3)
-    return "g" in f and "y" in f and has_empty_match(o) and d in ("match", "replace", "replaceFn")
-
-
-def p_split_fast_rx2_list(case, rec, exp):
-    o, code = run_case(case, rec, exp)
-    if not o or not fast_only(code):
-        return False
-    d0, d2 = first_diff_op(case, o, 0, 1), first_diff_op(case, o, 2, 3)
-    ds = [d for d in (d0, d2) if d]
-    return bool(ds) and all(d == "split" for d in ds) and has_empty_match(o)
-
-
-def p_replace_nonglobal_fast(case, rec, exp):
-    o, code = run_case(case, rec, exp)
-    if not o or not fast_only(code):
-        return False
-    f = case.get("flags", "")
-    d0, d2 = first_diff_op(case, o, 0, 1), first_diff_op(case, o, 2, 3)
-    ds = [d for d in (d0, d2) if d]
-    return ("g" not in f and bool(ds) and all(d in ("replace", "replaceFn") for d in ds)
-            and not is_ascii(units(case, "subj")) and ("y" in f or "u" in f))
-
-
 WORDISH = {0xE9, 0xC9, 0xDF, 0x17F, 0x212A}
 
 
 def tables_differ_only(code):
-    return code >= 0 and code & 1 and not code & (2 | 128)
+    return code >= 0 and code & 1 and not code & 128
 
 
 def p_word_boundary_nonascii(case, rec, exp):
     o, code = run_case(case, rec, exp)
-    if not o or not tables_differ_only(code):
+    if not o or not tables_differ_only(code) or code & 2:
         return False
     p = pat_text(case)
     return ("\\b" in p or "\\B" in p) and any(c in WORDISH for c in units(case, "subj")) and o.get("tabA") != o.get("tabB")
@@ -188,7 +184,27 @@ def p_named_groups_lost_re2_u(case, rec, exp):
             and not is_ascii(units(case, "subj")) and o.get("tabA") == o.get("tabB"))
 
 
+NEG_SHORTHAND_IN_CLASS = re.compile(r"\[[^\]]*\\[DWS][^\]]*\]")
+
+
+def p_rx2_class_negated_shorthand(case, rec, exp):
+    o, code = run_case(case, rec, exp)
+    if not o or not tables_differ_only(code) or code & 2:
+        return False
+    return bool(NEG_SHORTHAND_IN_CLASS.search(pat_text(case))) and o.get("tabA") != o.get("tabB")
+
+
+def p_dot_line_separator_re2(case, rec, exp):
+    o, code = run_case(case, rec, exp)
+    if not o or not tables_differ_only(code) or code & 2:
+        return False
+    return ("." in pat_text(case) and "s" not in case.get("flags", "") and any(c in (0x2028, 0x2029) for c in units(case, "subj"))
+            and o.get("engA", "").startswith("re2") and o.get("tabA") != o.get("tabB"))
+
+
 PREDICATES = {
+    "C20.regexp2_class_with_negated_shorthand": p_rx2_class_negated_shorthand,
+    "C20.dot_matches_line_separator_re2": p_dot_line_separator_re2,
     "C20.flags_duplicate_u_accepted": p_flags_dup_u,
     "C20.syntax_annexb_accepted_under_u": p_syntax_annexb_u,
     "C20.syntax_duplicate_group_name_re2": p_syntax_dup_group_re2,
@@ -301,8 +317,8 @@ CFG = {
     "prop_file": "Properties/C20.v",
     "run_modules": ["Verif.C20.Run"],
     "coq_dirs": ["C20"],
-    "n": {"quick": 3000, "thorough": 200000},
-    "shard": 200,
+    "n": {"quick": 600, "thorough": 200000},
+    "shard": 150,
     "level": "proof",
     "shrink": False,
     "max_report": 8,
